@@ -3,7 +3,7 @@
   `HEnv`     the byte-level environment of the follower for one node chain: block files + keystore (`RbEnv`, `PendEnv`),
              the relevance oracle, the wallet ids, the bytes of a block's hash and its two timestamps.
   `Good`     the run hypotheses of the primitives at a byte store (all are facts about sizes: cursor below the "syncedto"
-             collision height, balances written back fit 8 bytes, room in the block record, fields of outpoints / heights).
+             collision height, balances written back fit 8 bytes, room in the block record).
   `primsOf`  the concrete primitives (`disconnectBlockB`, `filterBlockB`, the sync bucket, bucket `ws`) form a `Prims`
              package for any invariant `I` that implies `Good` and is kept by the two writing primitives.
   `ledger_correct_on_bytes_run`  C01's `ledger_correct` for the byte store with the CONCRETE handler `processBlockB`:
@@ -11,6 +11,7 @@
              bytes decode to the books of the node's best chain.
 -/
 import MW.Lemmas.LedBytesHandler
+import MW.Lemmas.LedBytesFrame
 namespace MW.LedBytes
 open MW MW.Gen.Codec MW.Model.TxmgrCodec MW.TxmgrCodec MW.Model.Ledger MW.Spec.Chain MW.Spec.Books MW.Lemmas.Ledger
 
@@ -36,8 +37,7 @@ def BlkFit (H : HEnv E c) (b : Block) : Prop :=
 structure Good (H : HEnv E c) (bs : BStore) : Prop where
   canon : CanonS E bs
   cursor : syncedToOf bs.sync < collisionHeight
-  rb : ∀ h, RollbackOut H.R bs h
-  rbSync : ∀ h bs1, rollbackB H.R H.P bs h = .ok bs1 → syncedToOf bs1.sync = syncedToOf bs.sync
+  rb : ∀ h, RollbackBals H.R bs h
   filt : ∀ ready b, BlkFit H b → FilterOut H.P H.O bs ready b (H.hashOf b) (H.time8 b)
 
 def discOf (H : HEnv E c) (bs : BStore) (h : Nat) : M BStore := disconnectBlockB H.R H.P bs h
@@ -56,7 +56,7 @@ def primsOf (H : HEnv E c) (I : BStore → Prop) (hI : ∀ bs, I bs → Good H b
   canon bs h := (hI bs h).canon
   disc_sim bs h hb := by
     have g := hI bs hb
-    exact ⟨(disconnectBlock_on_bytes H.R H.P g.canon g.cursor (g.rb h) (g.rbSync h)).1, fun bs' hd => hdisc bs h bs' hb hd⟩
+    exact ⟨(disconnectBlock_on_bytes' H.R H.P g.canon g.cursor (g.rb h)).1, fun bs' hd => hdisc bs h bs' hb hd⟩
   filt_sim bs rb b hb hf := by
     have g := hI bs hb
     exact ⟨(filterBlock_on_bytes H.P H.O g.canon hf.1 hf.2.1 hf.2.2.1 hf.2.2.2.1 hf.2.2.2.2 (g.filt rb b hf)).1,
